@@ -33,6 +33,9 @@ def _takes_ascii(f):
             except UnicodeEncodeError as e:
                 msg = 'ISO-8601 strings should contain only ASCII characters'
                 six.raise_from(ValueError(msg), e)
+        elif any(b >= 128 for b in bytearray(str_in)):
+            raise ValueError('ISO-8601 strings should contain only ASCII '
+                             'characters')
 
         return f(self, str_in, *args, **kwargs)
 
